@@ -1,24 +1,95 @@
 # Claim table consumed by bin/gen_manifest.py.  `claim(id, technique, level text, residue/assumptions, design ref)`.
 # NOT_APPLICABLE maps property id -> one-line reason for every property that is not claimed.
+# Every claim is category `other`: a set of necessary conditions decided from the MIR / type facts of /repo's current tree.
 
-claim("C05",
-      "MIR panic-site inventory over the call-graph closure of the reader API (interval / dominating-guard / IO-contract discharge + "
-      "reviewed table), typestate and unreachability rules, loop-progress classification, allocation-size provenance",
-      "Decides, on every run from /repo's current MIR, the necessary conditions 'no undischarged panic-capable site (overflow/bounds/"
-      "division Assert, unwrap/expect, panic!, panicking std call) is reachable from ZipArchive/ZipFile/stream reader/new_append', 'every "
-      "loop reachable from there makes progress by a recognised pattern' and 'every allocation sized by input is bounded by type or guarded "
-      "against the stream'. It is an inventory with exact keys, not a proof of the behavioural property: peak-memory multiples, wall time and "
-      "panics inside dependencies are not decided.",
-      "Residue: memory multiple, time, decompression bombs, dependency internals. Reviewed-table entries carry a one-line reason and, where "
-      "the reason is an invariant, the rule that checks it (void if that rule fails).",
-      "DESIGN.md §3 C05")
+N = "Decided: the listed structural clauses (each a necessary condition of the property), on every run, from facts extracted by a rustc_private driver under the real cargo build. Not a proof of the behavioural property. "
 
-claim("C09",
-      "provenance (reaching definitions + expression reconstruction) over every impl Read::read / impl Write::write body; who-may-call for "
-      "bare read()/write()",
-      "Decides that each stream adapter of the crate returns and advances its hash/MAC/cipher/counter state by exactly the count returned by "
-      "the inner transfer (views buf[..n], never the whole buffer), that bare read/write calls exist only inside those adapters, and that the "
-      "AES reader is idempotent at end of data. These are necessary conditions of chunking independence, not the behaviour itself.",
-      "Residue: chunking independence inside flate2/bzip2/zstd; byte-identity of the produced archive under short writes beyond 'accounting "
-      "uses the accepted count'.",
-      "DESIGN.md §3 C09")
+claim("C01", "codec-table extraction from MIR success paths vs APPNOTE tables; provenance (reaching definitions); must-pass-through on CFG/call graph; switch-arm tables",
+      N + "Writer and reader tables of all five records agree with APPNOTE 6.3.9 (width, order, little-endian, provenance/destination per field), so they agree with each other; CRC/sizes are "
+      "back-patched from hasher/byte counter/stream position at offsets recomputed from the table and unconditionally for non-raw entries; per-entry counters are reset on open; every entry is closed "
+      "before the next one and before the directory; finish() and Drop share one finaliser; method codes and encoder/decoder constructors are paired; Unix mode shift/system pairing; end-record search window.",
+      "Residue: equality of decoded content through flate2/bzip2/zstd for all inputs/levels/sizes; >65535-entry and multi-MiB behaviour; that the sink honours Seek.", "DESIGN.md §3 C01")
+claim("C02", "codec tables vs specification; sibling-expression agreement; interval/guard analysis of narrowing casts feeding record fields; flag decision table; stream-position provenance",
+      N + "Record layouts equal the APPNOTE tables (a judge that shares no code with the crate); local and central headers write identical expressions for shared fields and the re-patched extra length; no narrowing cast "
+      "into a record field without clamp/guard/checked conversion (lengths >= 65536 are rejected, not wrapped); offsets/counts recorded from stream positions; bits 0/11 decision table; version-needed table; ZIP64 "
+      "thresholds, sentinel consistency and end-record condition.",
+      "Residue: acceptance by CPython zipfile / Info-ZIP (another technique); stored CRC vs decoded data; absence of overlap beyond offset provenance.", "DESIGN.md §3 C02")
+claim("C03", "reader codec tables vs APPNOTE; accessor-to-field provenance; dominating-guard facts; call-graph reachability",
+      N + "Parser tables (EOCD, ZIP64 EOCD + locator, central header, local header, ZIP64 and AE-x extra fields) equal the specification; each accessor returns the field its name promises; the entry window comes from the "
+      "central record while data_start uses the local header's own lengths; archive-offset computation is checked and applied to directory start and every header offset; the end-record search spans 22 + 65535 bytes; "
+      "duplicate-name / not-found semantics; ZipArchive::new cannot reach per-entry decoding.",
+      "Residue: faithful content for foreign compressed streams; tolerance of every legal layout (gaps, ordering, data-descriptor variants).", "DESIGN.md §3 C03")
+claim("C04", "ADT type facts; path-enumerated decision table over boolean atoms; provenance of constructor arguments",
+      N + "Every decoding variant of the entry reader wraps Crc32Reader; it is built with the entry's declared CRC and with an AE-2 exemption that is true only for vendor version AE-2; Crc32Reader::read's table over "
+      "(buffer empty, checksum matches, AE-2, inner result) is exactly the property's case analysis and no other atom influences it; the hash covers exactly the returned bytes.",
+      "Residue: that CRC-32 detects a given corruption; decoder behaviour on damaged data; O4 (truncated AE-2 stored entry).", "DESIGN.md §3 C04")
+claim("C05", "MIR panic-site inventory over the call-graph closure of the reader API with interval / dominating-guard / IO-contract discharge and a reviewed table; typestate and unreachability rules; loop-progress "
+             "classification; allocation-size provenance",
+      N + "No undischarged panic-capable site (overflow/bounds/division Assert, unwrap/expect, panic!, panicking std call) is reachable from ZipArchive/ZipFile/stream reader/new_append; the decoder constructor's "
+      "fall-through panic is unreachable (open path rejects exactly those methods; invariant M); ZipFile lazy-reader typestate; every loop makes progress by a recognised pattern; allocations sized by input are "
+      "bounded by type or guarded against the stream.",
+      "Residue: peak-memory multiple, wall time, decompression bombs, panics inside dependencies. Reviewed entries name the rule they rely on and are void when it fails.", "DESIGN.md §3 C05")
+claim("C06", "path-enumerated decision table over Component kinds; switch-arm effect table; closure analysis; delegation check",
+      N + "enclosed_name: NUL => None; Prefix/RootDir => None; ParentDir => checked depth-1 (None on underflow); Normal => depth+1; CurDir => no effect; exhausted => Some(unmodified name); no other atom decides. "
+      "mangled_name: walks the NUL-truncated, separator-normalised name, keeps exactly Normal components, pushes them verbatim onto an empty path. Public accessors are pure delegations.",
+      "Trusted: std::path::Path::components semantics on the host. Residue: non-lexical escapes (symlinks).", "DESIGN.md §3 C06")
+claim("C07", "who-may-call (filesystem-mutating callees); provenance of path arguments; dominators; dependency on C06's tables",
+      N + "Confinement clause only: the crate's filesystem-mutating call sites are the 8 in the two extractors; each path argument is base.join(enclosed_name()?) (or its parent) of the entry being extracted; the "
+      "unsafe-name error dominates every filesystem call; modes come from the same entry's unix_mode(); C06's accessor tables hold.",
+      "Residue (not claimed): the second sentence of the property -- successful reproduction of the tree, contents and modes; file/dir conflicts; pre-existing symlinks.", "DESIGN.md §3 C07")
+claim("C08", "constant tables; guard facts at emit/consume sites (sentinel consistency); skip-path facts for the end records; codec tables of the ZIP64 records",
+      N + "Thresholds are 0xFFFFFFFF/0xFFFF; each central 32-bit slot is min(v, THR) and its 64-bit value is emitted iff v >= THR -- exactly when a reader keyed on the sentinel consumes it -- in APPNOTE order; the reader "
+      "consumes each value iff its own slot holds the sentinel; ZIP64 end record + locator are written whenever a clamped EOCD field would not fit; 4 GiB guard follows the accounting and closes the writer; raw copy "
+      "derives large_file from both sizes; ZIP64 record layouts.",
+      "Residue: behaviour at real >4 GiB / >65535-entry sizes; O5 (exactly 0xFFFFFFFF-byte non-large entry).", "DESIGN.md §3 C08")
+claim("C09", "provenance (reaching definitions + expression reconstruction) over every impl Read::read / impl Write::write body; who-may-call for bare read()/write()",
+      N + "Each stream adapter returns and advances its hash/MAC/cipher/counter state by exactly the count returned by the inner transfer (views buf[..n], never the whole buffer); bare read/write calls exist only "
+      "inside those adapters; the AES reader is idempotent at end of data.",
+      "Residue: chunking independence inside flate2/bzip2/zstd; byte-identity of the archive under short writes beyond 'accounting uses the accepted count'.", "DESIGN.md §3 C09")
+claim("C10", "reader codec tables + sibling-expression agreement; dominating facts; path-enumerated token accounting of the visitor; loop-exit analysis",
+      N + "Both readers use the same APPNOTE tables and compute flags/method/time identically; same decoder stack; encrypted and data-descriptor entries refused before the entry window exists; window = ZIP64-corrected "
+      "compressed size; Drop drains the unwrapped Take until Ok(0) and nothing else ends the loop; visit() consumes the stream by the archive grammar -- each signature once, the record whose signature the entry reader "
+      "ate is parsed body-only, callbacks once per record.",
+      "Residue: equality of delivered contents/metadata over all archives and consumption patterns.", "DESIGN.md §3 C10")
+claim("C11", "use-classification of every I/O Result (def-use over MIR); swallowed-variant analysis; control dependence of panics on Err edges; position-arithmetic discharge; restore-on-success reachability",
+      N + "No I/O Result is dropped or merely tested unless reviewed with a structural side-condition; a match that swallows ZipError::Io is allowed only around callees reading an in-memory cursor; no unwrap/expect on "
+      "an I/O Result, no panic on an Err edge; unchecked subtractions on stream positions only between positions of the same call; mem::replace(inner, Closed) is restored on every success path.",
+      "Residue: the outcome statement 'error or identical to the failure-free run' over fault sequences as a whole (DESIGN.md O1).", "DESIGN.md §3 C11")
+claim("C12", "MIR panic-site inventory over the writer API; typestate invariants checked for establishment and preservation over all methods; path-enumerated misuse tables",
+      N + "No undischarged panic site reachable from ZipWriter/FileOptions; typestate assertions discharged by invariants I1-I4 (extra-data mode implies a plain sink and is left before the fallible switch; a closed entry "
+      "leaves a plain sink; flags imply a current entry and entries are append-only; permissions defaulted before use); misuse rows of write/end_extra_data/switch_to/validate_extra_data; every failing path of the "
+      "compressor switch leaves the writer closed; per-entry accounting reset.",
+      "Residue: 'exactly the entries/bytes' at content level; sequences using the experimental encryption option beyond start_file+write (outside the quantifier, O7).", "DESIGN.md §3 C12")
+claim("C13", "call-graph sibling agreement; closure-capture provenance; aggregate field table; def-use of the parsed entry list; codec tables",
+      N + "new_append uses the reader's end-record search, directory location and central parser with the computed archive offset, parses exactly number_of_files records, repositions onto the old directory, and returns "
+      "a writer with writing_raw set, a plain sink, the old comment and the parsed list moved in untouched; finish_file skips the back-patch iff writing_raw and clears it; central writer/parser tables agree.",
+      "Residue: behaviour over multi-round histories, foreign bases, >65535 entries; O2 (double ZIP64 block on re-emission), O3.", "DESIGN.md §3 C13")
+claim("C14", "provenance of header values and of the copy's source/sink; must-not-pass-through (compressor switch, encryption); flag ordering",
+      N + "The copied entry's CRC/sizes/method/time/permissions/large_file are the source's accessors; bytes move by io::copy from get_raw_reader() (unwraps to the bounded Take, no decoder) into the writer while it is a "
+      "plain stored sink; writing_raw/writing_to_file are set before the copy; the close skips CRC/size recomputation iff raw.",
+      "Residue: bit-equality for all sources (follows given a readable source); O6 (file-type bits dropped).", "DESIGN.md §3 C14")
+claim("C15", "path-enumerated decision tables; comparison-site analysis; constant and formula tables vs APPNOTE 6.1; CRC table regeneration; provenance",
+      N + "Open table over (password, encrypted flag, AES info) with PASSWORD_REQUIRED identified by constant identity; validator chosen by the data-descriptor flag; 12-byte header, only byte 11 compared with crc>>24 / "
+      "time>>8; encrypt/decrypt update keys with the plaintext byte after taking the keystream byte; writer buffers a 12-byte header, sets byte 11 from the plaintext CRC, encrypts all, bit 0 iff encrypted; key "
+      "constants, update formulas, CRC table.",
+      "Residue: interop with independent implementations; absence of plaintext in the file; 1/256 false accept is inherent.", "DESIGN.md §3 C15")
+claim("C16", "constant tables vs WinZip AE-x; generic-argument facts; path-enumerated table of the authenticating reader; dominating facts at keystream refill; open table",
+      N + "AE-x constants and key layout; PBKDF2-HMAC-SHA1 x1000; mode<->cipher pairing; LE counter from 1; HMAC fed the ciphertext before decryption; the last bytes are released only after constant_time_eq over the "
+      "10-byte code; keystream refill only when the block is exhausted; verifier/missing-password rows; AE-x extra layout; AE-2 exemption plumbing.",
+      "Residue: cryptographic correctness of aes/hmac/sha1/pbkdf2; exhaustive bit-flip detection (follows given the primitives); O4.", "DESIGN.md §3 C16")
+claim("C17", "must-pass-through (validation before emission); placement provenance; constant table of reserved ids vs APPNOTE; predicate agreement between the padding guard and the self-check",
+      N + "Extra data is validated before any emission; buffered verbatim; local emission iff not central-only with data_start advanced and the local extra-length field re-patched at its APPNOTE offset; local part "
+      "cleared before the central part; rejection rows with a complete scan of a reserved-id table covering APPNOTE 4.5.2/4.6.1; alignment: validated path, pad/self-check predicate agreement, pad record length, return value.",
+      "NOT decided: the modular-arithmetic identity that makes the padded offset a multiple of align (a solver's job, not this family's).", "DESIGN.md §3 C17")
+claim("C18", "bit-field table extraction (mask/shift/scale/offset) from MIR and comparison with the MS-DOS layout; path-enumerated range table; interval/guard invariant on constructions; panic inventory",
+      N + "from_msdos and timepart/datepart are mutually inverse tables covering all 32 bits (bijective without enumeration); the checked constructor accepts exactly the documented ranges; TryFrom guards the year on the "
+      "value it stores; every DateTime construction has year in [1980, 2107], discharging `year - 1980`; fields private; to_time propagates errors.",
+      "Residue: calendar correctness of the `time` crate; archive round trip of timestamps beyond the codec slots.", "DESIGN.md §3 C18")
+claim("C19", "table folding of a match over all 256 byte values vs CPython's cp437 codec; dominating facts at decode sites; def-use of the raw buffer; writer tables",
+      N + "to_char equals code page 437 for every byte; the ASCII fast path only under all-bytes-<0x80; name/comment decoded by from_utf8_lossy iff bit 11 is set else CP437, in both parsers, nothing else decides; raw "
+      "name is the read buffer untouched; writer emits the name's own bytes/length and sets bit 11 iff non-ASCII.",
+      "Oracle: CPython's cp437 codec (named by the property).", "DESIGN.md §3 C19")
+claim("C20", "ADT type-tree walk for interior mutability; rustc trait-solver verdicts (Send/Sync) captured during extraction; who-may-call on Arc/atomic APIs; provenance of the stored value; signature facts",
+      N + "Clones share only Arc<Shared>, whose type tree has no interior mutability except one relaxed atomic; nothing mutates through the Arc; that atomic is stored at one site after the signature check with a value "
+      "derived from header_start and bytes this handle read, and loaded only by accessors; opening takes &mut self and begins with an absolute seek; Shared/ZipFileData: Send + Sync per rustc.",
+      "Residue: actual multi-threaded executions; readers whose Clone shares a cursor.", "DESIGN.md §3 C20")
